@@ -64,6 +64,7 @@ RULE_GROUPS: Dict[str, Callable] = {
     'rd.error_gate_siblings': rd.rule_error_gate_siblings,
     'rd.subgraph_node_set': rd.rule_subgraph_node_set,
     'st.default_visibility': st.rule_default_visibility,
+    'st.contained_failures': st.rule_contained_failures,
     'oo.oneof_sequential': oo.rule_oneof_sequential,
     'oo.oneof_exhaustion': oo.rule_oneof_exhaustion,
     'oo.flag_propagation': oo.rule_flag_propagation,
@@ -133,6 +134,7 @@ RULES: Dict[str, Tuple[str, str]] = {
     'CC-7': ('cc.wrapper_kind', 'a process wrapper generated for a node class is a coroutine function exactly when the wrapped method is'),
     'LK-1': ('lk.spawn_registered', 'every task-creating primitive registers the task, on every path, in the registry that '
                                     'run() cancels'),
+    'OO-8': ('st.contained_failures', 'the error gate of a sub-dag does not count a failure already contained by a resolved inner one-of'),
     'LK-7': ('lk.spawn_registered', 'the task registry holds strong references (the event loop keeps only weak references to tasks)'),
     'LK-2': ('lk.run_cleanup', 'after run() has spawned, return, exception and cancellation of run() all pass the cancel-all loop'),
     'LK-3': ('lk.run_cleanup', 'the cancel-all loop cancels every task that is not done and never stops early'),
@@ -394,7 +396,7 @@ _p(PropertySpec(
     'C10',
     [('OO-1', None), ('OO-2', None), ('OO-3', None), ('OO-4', None), ('OO-5', None), ('OO-6', None), ('RD-6', None),
      ('WK-f', None), ('WK-g', _mentions('oneof')), ('SW-1', _mentions('filter_node', 'sub-dag')), ('ER-6', None), ('RD-2', None), ('BD-8', None),
-     ('SH-1', _viol)],
+     ('SH-1', _viol), ('OO-8', None)],
     decides='candidates are tried sequentially, lazily and in declared order; untried candidates are excluded from every executed '
             'dag; the errors-as-values flag is inherited by every sub-dag; the error gate precedes every launch; exhaustion '
             'yields OneOfDoesNotHaveResultError; the owner of a candidate is woken on deep failures and on None results; '
